@@ -84,8 +84,59 @@ func werr(w any) error   { return nil }
 // the function was entered (frame condition of the abstract writer).
 func wonly(w any) bool { return true }
 
+// ---------------------------------------------------------------------------
+// Functional specification of the escapers (C07, C06): what is written is the
+// fold, over the bytes of s, of a per-byte replacement ("" = the byte itself).
+// bseq is an abstract byte sequence; cat concatenates; sub(s,lo,hi) is the
+// bytes s[lo:hi]; wout(w) is everything written to w so far.
+// ---------------------------------------------------------------------------
+
+type bseq string
+
+func cat(a, b bseq) bseq            { return a + b }
+func sub(s string, lo, hi int) bseq { return bseq(s[lo:hi]) }
+func lit(s string) bseq             { return bseq(s) }
+func eps() bseq                     { return "" }
+func wout(w any) bseq               { return "" }
+
+func foldPieces(s string, lo, hi int, piece func(string, int) string) bseq {
+	var b []byte
+	for k := lo; k < hi; k++ {
+		if p := piece(s, k); p != "" {
+			b = append(b, p...)
+		} else {
+			b = append(b, s[k])
+		}
+	}
+	return bseq(b)
+}
+
+// HTML text and quoted attribute values: the five significant characters become
+// character references (https://html.spec.whatwg.org/#escapingString, plus the
+// two quotes so that the result is safe inside attribute values).
+func specPieceHTML(s string, k int) string {
+	switch s[k] {
+	case '"':
+		return "&#34;"
+	case '\'':
+		return "&#39;"
+	case '&':
+		return "&amp;"
+	case '<':
+		return "&lt;"
+	case '>':
+		return "&gt;"
+	}
+	return ""
+}
+
+func EscHTML(s string, lo, hi int) bseq { return foldPieces(s, lo, hi, specPieceHTML) }
+
+//@ fold EscHTML piece specPieceHTML
+
 // Escapers: never panic, terminate (C05); stop at the first failed write and
-// return the writer's error (C13).
+// return the writer's error (C13); on success the output is extended by exactly
+// the escaped form of s (C07).
 
 //@ func htmlEscape
 //@   props C05 C13 C07
@@ -94,9 +145,16 @@ func wonly(w any) bool { return true }
 //@   ensures[C13] result != nil ==> wfailed(w) && result == werr(w)
 //@   ensures[C13] result == nil ==> !wfailed(w)
 //@   ensures[C13] wonly(w)
+//@   ensures[C07] result == nil ==> wout(w) == cat(old(wout(w)), EscHTML(s, 0, len(s)))
+//@   hint last; len(s)
 //@   loop 0
 //@     invariant 0 <= last && last <= i && i <= len(s)
 //@     invariant[C13] !wfailed(w) && wonly(w)
+//@     invariant[C07] wout(w) == cat(old(wout(w)), EscHTML(s, 0, last))
+//@     invariant[C07] EscHTML(s, last, i) == sub(s, last, i)
+//@     hint i; i+1; last
+//@     cases s[i] == '"'; s[i] == '\''; s[i] == '&'; s[i] == '<'; s[i] == '>'
+//@     cases last == i
 //@     decreases len(s) - i
 
 //@ func htmlNoEntitiesEscape
